@@ -124,6 +124,9 @@ def wait_exits(res, arn):
 def check(scn, seed, mo=None):
     if mo is None:
         mo = E.model_for(scn)
+    if mo.unsupported or mo.status is None or E.flags_block(mo):
+        # (a shrunk scenario may leave what the reference model judges: nothing can be concluded then)
+        return {"evaluations": 1, "probes": {"skipped:outside-model": 1}, "findings": [], "distinct": []}
     res = run_scenario(scn, seed, horizon=scn["config"].get("execution_ttl", 600) + 800)
     arn = res.exec_arns.get("e1")
     term = res.terminal(arn) if arn else None
